@@ -420,6 +420,7 @@ class SocketShim:
     def socket(self, *a, **k):
         h = H()
         h.counters["socket.socket"] += 1
+        h.maybe_fail_socket_creation()
         return ShimSocket(h)
 
     def __getattr__(self, name):
@@ -455,6 +456,7 @@ class SctpShim:
         h = H()
         h.counters["sctp.sctpsocket_tcp"] += 1
         TOTALS["sctp.sctpsocket_tcp"] += 1
+        h.maybe_fail_socket_creation()
         return SctpSocket(h)
 
 
@@ -671,6 +673,7 @@ class Harness:
         self.conns: list = []
         self.thread_exc: list[dict] = []
         self.connect_script: dict[tuple, deque] = {}
+        self.socket_failures = 0      # the next n socket() / sctpsocket_tcp() calls raise EMFILE (no descriptor left)
         self.default_connect = "ok"
         self.send_hook = None
         self.node = None
@@ -917,6 +920,14 @@ class Harness:
         self.inbound_peers.append(p)
         self.log("dial_in", sock=ns.sid, addr=[ip, port])
         return p
+
+    def maybe_fail_socket_creation(self):
+        if self.socket_failures > 0:
+            self.socket_failures -= 1
+            self.counters["socket.creation_failed"] += 1
+            self.log("socket_fail")
+            import errno as _e
+            raise OSError(_e.EMFILE, "Too many open files")
 
     def script_connect(self, ip, port, *outcomes):
         self.connect_script.setdefault((ip, port), deque()).extend(outcomes)
